@@ -5,12 +5,14 @@ import io
 import random
 
 from vf import corpus, geom
-from vf.runner import Acc, CaseTimeout, HarnessError, fingerprint, subseed, time_limit
+from vf.runner import Acc, CaseTimeout, HarnessError, fingerprint, hyp_collect, subseed, time_limit
 
 ID = "C05"
 LEVEL = "exploration"
 RULE = (
-    "every corpus font (binary files as they are, complete TTX compiled) x locations {default, each axis min/max, "
+    "every corpus font (binary files as they are, complete TTX compiled) and Hypothesis-generated glyf+gvar(+avar) fonts "
+    "(simple glyphs with on/off-curve patterns, composites with transforms and offset-scaling flags, tuple variations with "
+    "inferred (IUP) deltas, intermediate regions) x locations {default, each axis min/max, "
     "all-min/all-max corners, seeded interior user-space values, values next to avar segment ends, out-of-range "
     "values} x glyphs (all, or a seeded sample per font in the quick tier): glyphSet[name].draw through a "
     "decomposing recording pen and .width/.height vs HarfBuzz draw/advances, canonicalised by vf.geom; FreeType "
@@ -84,6 +86,9 @@ def jobs(tier, seed):
     J = []
     for fid in fids:
         J.append(dict(kind="font", name=fid, fid=fid, seed=seed, tier=tier))
+    n = 4000 if tier == "thorough" else 400
+    for i in range(16):
+        J.append(dict(kind="generated", name="generated-%d" % i, n=n // 16, seed=subseed(seed, "gen", i), tier=tier))
     return J
 
 
@@ -175,6 +180,13 @@ def check_glyph(font, glyphSet, hbf, ft_get, name, gid, loc, acc, case, kinds):
         if vote in ("freetype-agrees-with-fonttools", "freetype-agrees-with-both"):
             acc.label("outline:hb-disagrees-but-freetype-sides-with-fonttools")
         else:
+            gen = case.get("gen")
+            if gen:
+                g = [x for x in gen["glyphs"] if x["name"] == name]
+                if g and "components" in g[0]:
+                    n = len(g[0]["components"])
+                    if any(tv["deltas"][n] not in (None, [0, 0], (0, 0)) for tv in gen.get("variations", {}).get(name, [])):
+                        vote = "composite-with-left-phantom-delta"
             acc.fail("outline", vote, "%s glyph %r gid %d loc %r: %s" % (case["fid"], name, gid, loc, detail), case)
     # advances
     hadv = hbf.h_advance(gid)
@@ -201,13 +213,17 @@ def check_glyph(font, glyphSet, hbf, ft_get, name, gid, loc, acc, case, kinds):
 
 
 def run_font(acc, fid, seed, tier, only=None):
-    from vf.hbref import HBFont
-
     try:
         font, data, index = _open_pair(fid)
     except Exception as e:
         acc.exclude("cannot-open:%s" % type(e).__name__)
         return
+    compare_font(acc, font, data, index, fid, seed, tier, only=only)
+
+
+def compare_font(acc, font, data, index, fid, seed, tier, only=None, gen=None, nrandom=None):
+    from vf.hbref import HBFont
+
     if not {"head", "hhea", "hmtx", "maxp"}.issubset(font.keys()) or not ({"glyf", "CFF ", "CFF2"} & set(font.keys())):
         acc.exclude("font-lacks-required-tables-or-outlines")
         return
@@ -241,7 +257,7 @@ def run_font(acc, fid, seed, tier, only=None):
         return get
 
     thorough = tier == "thorough"
-    locs = _locations(font, seed, 40 if thorough else 8, fid)
+    locs = _locations(font, seed, nrandom if nrandom is not None else (40 if thorough else 8), fid)
     kinds = []
     if "glyf" in font:
         kinds.append("glyf")
@@ -271,6 +287,8 @@ def run_font(acc, fid, seed, tier, only=None):
         for name in names:
             gid = font.getGlyphID(name)
             case = dict(fid=fid, loc=loc, glyph=name)
+            if gen is not None:
+                case["gen"] = gen
             try:
                 with time_limit(60):
                     nc = check_glyph(font, glyphSet, hbf, ftg, name, gid, loc, acc, case, kinds)
@@ -292,13 +310,52 @@ def run_font(acc, fid, seed, tier, only=None):
             acc.case((fid, name, loc), nontrivial=nontrivial, labels=labels, sample=dict(fid=fid, glyph=name, loc=loc, contours=nc) if nontrivial and li == len(locs) // 2 else None)
 
 
+def run_generated(acc, spec, seed, tier, only=None):
+    from fontTools.ttLib import TTFont
+    from vf import gen_varfont
+
+    try:
+        data = gen_varfont.build(spec)
+    except Exception as e:
+        # building the input is not the behaviour under test here (C02/C10 cover it)
+        acc.exclude("generated-font-does-not-build:%s" % type(e).__name__)
+        return
+    font = TTFont(io.BytesIO(data))
+    fid = "gen:" + fingerprint(spec)
+    compare_font(acc, font, data, 0, fid, seed, tier, only=only, gen=spec, nrandom=3)
+    tvs = spec.get("variations", {})
+    if any(d is None for v in tvs.values() for tv in v for d in tv["deltas"]):
+        acc.label("gen:has-inferred-deltas")
+    if spec.get("avar"):
+        acc.label("gen:avar")
+    if any("components" in g for g in spec["glyphs"]):
+        acc.label("gen:composite")
+
+
 def run_job(job):
     acc = Acc()
-    run_font(acc, job["fid"], job["seed"], job["tier"])
+    if job["kind"] == "font":
+        run_font(acc, job["fid"], job["seed"], job["tier"])
+    else:
+        from vf import gen_varfont
+
+        def body(spec, acc):
+            run_generated(acc, spec, job["seed"], job["tier"])
+
+        hyp_collect(acc, gen_varfont.specs(), body, job["n"], job["seed"])
     return acc
+
+
+def finish(total, tier, seed):
+    for need in ("gen:has-inferred-deltas", "gen:composite", "gen:avar", "kind:CFF", "kind:CFF2", "loc:variation"):
+        if not total.labels.get(need):
+            raise HarnessError("generator/corpus class %r never exercised" % need)
 
 
 def replay(case):
     acc = Acc()
-    run_font(acc, case["fid"], 1, "thorough", only=case)
+    if case.get("gen"):
+        run_generated(acc, case["gen"], 1, "thorough", only=case)
+    else:
+        run_font(acc, case["fid"], 1, "thorough", only=case)
     return acc.failures
